@@ -396,15 +396,13 @@ class World:
                 f'do-not-merge-label/{cause(stale, f"label{n}", ("pull_request", 0))}',
                 f'PR {n} merged while labelled {self.dnm_label!r} (CI cache: labels={sorted(getattr(cpr, "labels", ()))})',
             ))
-        bad = {c: s for c, s in self.statuses.get(head, {}).items() if s != 'success'}
-        lost = {c: s for c, s in bad.items() if (head, c) in self.lost_posts}
-        if lost:
-            # the CI's own status POST failed (5xx); the CI nevertheless recorded the status as posted
-            found.append((
-                'check-not-success/status-post-lost',
-                f'PR {n} merged while GitHub shows {lost} on its head {head}: the CI\'s status POST had failed',
-            ))
-            bad = {c: s for c, s in bad.items() if c not in lost}
+        # External required contexts: GitHub's status table is the truth.  The CI's OWN context is judged on what it
+        # reports about, not on the table: that check "succeeded" iff the CI's test batch for the current head (and
+        # the current target) succeeded -- the batch clause below.  A lost status POST is only counted.
+        bad = {c: s for c, s in self.statuses.get(head, {}).items() if s != 'success' and c != self.ci_context}
+        if self.statuses.get(head, {}).get(self.ci_context) != 'success':
+            self.count('merges_while_github_shows_own_context_not_success'
+                       + ('_post_lost' if (head, self.ci_context) in self.lost_posts else ''))
         if bad and not excused(f'status:{head}'):
             cached = {k: v.value for k, v in getattr(cpr, 'last_known_github_status', {}).items()} if cpr is not None else {}
             # out of date only if a status changed after the CI last read the rollup of this head; a cache that
@@ -957,6 +955,7 @@ class Sys:
             if w.fault is not None:
                 w.count('faults_not_reached')  # the pass made fewer than k+1 GitHub requests: same as the plain pass
                 w.fault = None
+            self._observe()
             return list(w.violations), dict(w.counters), list(w.merged_now)
         if ev[0] == 'win':
             _, k, base, change = ev
@@ -971,6 +970,8 @@ class Sys:
             if ev not in self.enabled(all_knobs=True):
                 raise HarnessError(f'event {ev} is not enabled here')
             self._do(ev)
+        if ev[0] not in self.WORLD_EVENTS:
+            self._observe()
         if w.cfg['prompt_hooks']:
             # GitHub webhooks arrive at once: part of the same atomic transition (also those caused by a merge)
             for _ in range(20):
@@ -981,6 +982,25 @@ class Sys:
             else:
                 raise HarnessError('webhook deliveries do not settle')
         return list(w.violations), dict(w.counters), list(w.merged_now)
+
+    def _observe(self):
+        """Non-vacuity: after a CI pass, how often was an open, approved PR left unmerged whose own test batch for
+        the current head had failed / was still running / existed only for an older head or target?"""
+        w = self.world
+        for n, p in w.prs.items():
+            if p['state'] != 'open' or p['review'] != 'APPROVED':
+                continue
+            mine = [b for b in w.batches if b['attributes'].get('pr') == str(n)]
+            cur = [b for b in mine if b['attributes'].get('source_sha') == p['head']]
+            on = [b for b in cur if b['attributes'].get('target_sha') == w.target]
+            if mine and not cur:
+                w.count('seen_unmerged_approved_pr_batch_only_for_older_head')
+            elif cur and not on:
+                w.count('seen_unmerged_approved_pr_batch_only_for_older_target')
+            elif on and any(b['state'] == 'failure' for b in on) and not any(b['state'] == 'success' for b in on):
+                w.count('seen_unmerged_approved_pr_own_batch_failed')
+            elif on and all(b['state'] == 'running' for b in on):
+                w.count('seen_unmerged_approved_pr_own_batch_running')
 
     def _world_change(self, ev):
         """Mutate the world's truth.  Returns (facts changed, webhook GitHub sends for it | None)."""
